@@ -315,6 +315,30 @@ def gen_session(rng, prepost=0.3):
         if rng.random() < 0.08 and default_binding(tree):
             req = []
         calls.append(req)
+    if rng.random() < 0.25:
+        # NESTED default-task shortcut (`a.b`, `a.b.c` = the default task of that sub-collection) next to a task living
+        # directly in the enclosing collection, in both orders, within one execute() or across two
+        cands = []
+        for node, here, chain in walk(tree):
+            if len(here) >= 1:
+                for sub in node["subs"]:
+                    d = default_binding(sub, chain)
+                    if d:
+                        for sp in spellings(None, list(here) + [sub["name"]]):
+                            cands.append((sp, [n for t in node["tasks"] for n in names[t["tag"]]
+                                               if n.count(".") == len(here)]))
+        cands = [c for c in cands if c[1]]
+        if cands:
+            short, direct = rng.choice(cands)
+            pair = [short, rng.choice(direct)]
+            rng.shuffle(pair)
+            calls = [c for c in calls if c] or [[]]
+            if len(calls) > 1 and rng.random() < 0.4:
+                calls[0] = calls[0] + [pair[0]]
+                calls[1] = [pair[1]] + calls[1]
+            else:
+                k = rng.randint(0, len(calls[0]))
+                calls[0] = calls[0][:k] + pair + calls[0][k:]
     if twin:
         pair = [rng.choice(names[twin[2]]), rng.choice(names[twin[3]])]
         rng.shuffle(pair)
@@ -610,7 +634,7 @@ def run(ctx):
     rng = ctx.rng
     drv = LeanDriver("drv_config")
     lines, rows_all, ran = [], [], []
-    for i in range(ctx.n(3000, 45000)):
+    for i in range(ctx.n(2600, 45000)):
         case = gen_session(rng, prepost=0.3 if i % 2 else 0.0)
         why, sig, ops, rows, record = check(case)
         bindings, res2, names, coll = index_tree(case["tree"])
@@ -673,6 +697,11 @@ def run(ctx):
                 out.hist["call_depth_%d" % depth] += 1
                 if kind == "shortcut":
                     out.hist["shortcut_depth_%d" % (n.count(".") + 1)] += 1
+            for n, n2 in list(zip(req, req[1:])) + list(zip(req[1:], req)):
+                if n.count(".") >= 1 and n.count(".") < resolve[n].count(".") and \
+                        n2.replace("-", "_").rsplit(".", 1)[0] == n.replace("-", "_").rsplit(".", 1)[0] and \
+                        n2.count(".") == n.count(".") and resolve[n2] != resolve[n]:
+                    out.hist["nested_shortcut_adjacent_to_enclosing_task"] += 1
         if why:
             out.hist["oracle_" + sig] += 1
             if sig not in KNOWN_SIGS or out.hist["oracle_" + sig] <= 12:
